@@ -290,6 +290,23 @@ Section TransformProofs.
     intros ts es. simpl. rewrite run_edits_transforms. split; [reflexivity|].
     apply node_matrix_saved_is_product.
   Qed.
+  (* histories with failing saves anywhere: only the transform list matters to the next successful save *)
+  Lemma run_history_transforms : forall h (n : node R),
+    transforms (run_history O n h) = history_transforms (transforms n) h.
+  Proof.
+    induction h as [|s h IH]; intro n; [reflexivity|].
+    cbn [run_history history_transforms fold_left]. fold (run_history O (hstep_apply O n s) h).
+    rewrite IH. destruct s; reflexivity.
+  Qed.
+  Lemma save_recomputes_after_failures : forall ts h,
+    let n := run_history O (construct O ts) (h ++ [HSave]) in
+    transforms n = history_transforms ts h /\
+    matrix n = spec_matrix O (history_transforms ts h).
+  Proof.
+    intros ts h. cbv zeta. unfold run_history. rewrite fold_left_app. cbn [fold_left hstep_apply].
+    fold (run_history O (construct O ts) h). cbn [save transforms matrix].
+    rewrite run_history_transforms. split; [reflexivity|]. apply node_matrix_saved_is_product.
+  Qed.
   Lemma save_idempotent : forall n : node R, save O (save O n) = save O n.
   Proof. reflexivity. Qed.
 End TransformProofs.
